@@ -14,8 +14,11 @@ Correspondence, M: the text each tag hands to parse_tag + the leaf values -> run
 Correspondence, S: the structure + the layout table + that text + the leaf values -> inside Coq: arglist_ok, print == text,
 denote == observed.
 """
+import collections
+import collections.abc
 import json
 import keyword
+import types
 
 import common as C
 import c12_util as U
@@ -33,7 +36,12 @@ T_BACKSLASH = "c02-string-ending-in-backslash"      # fixed d29898a: "a\\\\" fol
 
 CTX = {"i": 5, "s": "str", "l": [1, 2, 3], "d": {"a": 1, "b": 2}, "n": None, "t": True, "o": {"k": "v w", "z": [7, 8]},
        "e": [], "q": "it's \"q\"", "only": "ONLY", "required": 9, "D": {"Aa": 1, "b-c": 2, "Cc": 3},
-       "I": {1: "one", "k": 2}}
+       "I": {1: "one", "k": 2},
+       # mappings that are NOT dict subclasses (a top-level ...m spread means f(**m) for every collections.abc.Mapping) and iterables
+       # that are not lists (f(*x) / [*x] take any iterable)
+       "mp": types.MappingProxyType({"ma": 1, "mb": "two"}), "ud": collections.UserDict({"ua": [1], "ub-x": None}),
+       "cm": collections.ChainMap({"ca": 1}, {"cb": 2, "ca": 9}), "od": collections.OrderedDict([("oa", 1), ("ob", 2)]),
+       "tp": (4, "five"), "rg": range(3), "dk": {"ka": 1, "kb": 2}.keys(), "fs": frozenset([7])}
 
 CORPUS = [
     {"body": "...d|default:d", "expect": [[], {"a": 1, "b": 2}], "trigger": T_SPREAD_FILTER},
@@ -106,6 +114,68 @@ class Probes:
         return ("ok", args, kwargs, flags, self.texts[0])
 
 
+T_HISTORY = "c02-meaning-depends-on-earlier-templates"
+
+
+class FilterLibs:
+    """two tag libraries registered from the harness (no source hooks) whose filters overlap: `label` is defined by both,
+    `onlya` by the first only, and the second shadows the builtin `upper`"""
+
+    def install(self):
+        from django.template import Library, engines
+        self.eng = engines["django"].engine
+        la, lb = Library(), Library()
+        la.filter("label", lambda v: "A:%s" % v)
+        lb.filter("label", lambda v: "B:%s" % v)
+        la.filter("onlya", lambda v, arg="": "a(%s;%s)" % (v, arg))
+        lb.filter("upper", lambda v: "b-upper(%s)" % v)
+        self.eng.template_libraries["c02lib_a"] = la
+        self.eng.template_libraries["c02lib_b"] = lb
+
+    def uninstall(self):
+        self.eng.template_libraries.pop("c02lib_a", None)
+        self.eng.template_libraries.pop("c02lib_b", None)
+
+
+LOADS = {"A": "{% load c02lib_a %}", "B": "{% load c02lib_b %}", "AB": "{% load c02lib_a %}{% load c02lib_b %}", "none": ""}
+# (leaf expression with a hole for a unique literal, the load sets under which stock Django accepts it)
+HISTORY_LEAVES = [('"h%d"|label', ("A", "B", "AB")), ('"h%d"|label|lower', ("A", "B", "AB")), ('"h%d"|onlya:"z"', ("A", "AB")),
+                  ('"h%d"|upper', ("A", "B", "AB", "none")), ('"h%d"|lower|label', ("A", "B", "AB"))]
+HISTORY_SHAPES = [("x=%s", lambda v: ([], {"x": v})), ("%s", lambda v: ([v], {})), ("x=[%s, 1]", lambda v: ([], {"x": [v, 1]})),
+                  ("x={'k': %s}", lambda v: ([], {"x": {"k": v}})), ("...[%s]", lambda v: ([v], {})), ("a:b=%s", lambda v: ([], {"a": {"b": v}}))]
+
+
+def history_trial(pr, n, leaf_tpl, ok_sets, shape, order):
+    """the SAME argument text in templates that differ in their {% load %} line, rendered in the given order within this process;
+    oracle = the stock {{ expr }} of the same template.  -> list of problems"""
+    from django.template import Template, Context, TemplateSyntaxError
+    leaf = leaf_tpl % n
+    arg_tpl, expect = shape
+    arg = arg_tpl % leaf
+    problems, seq = [], []
+    for ls in order:
+        tag_src = LOADS[ls] + "{% c02probe " + arg + " / %}"
+        seq.append(tag_src)
+        if ls in ok_sets:
+            stock = Template(LOADS[ls] + "{% autoescape off %}{{ " + leaf + " }}{% endautoescape %}").render(Context(dict(CTX)))
+            res = pr.run(tag_src, CTX)
+            exp = expect(stock)
+            if res[0] != "ok" or not same(res[1], exp[0]) or not same(res[2], exp[1]):
+                problems.append("%s hands %r to Python; stock {{ %s }} in the same template gives %r (templates rendered before it in this process: %r)"
+                                % (tag_src, res[1:3], leaf, stock, seq[:-1]))
+        else:
+            try:
+                Template(LOADS[ls] + "{{ " + leaf + " }}")
+                problems.append("harness: stock {{ %s }} under %r did not raise" % (leaf, ls))
+            except TemplateSyntaxError:
+                pass
+            res = pr.run(tag_src, CTX)
+            if res[0] == "ok" or res[1] != "TemplateSyntaxError":
+                problems.append("%s: the filter does not exist in this template (stock {{ %s }} raises TemplateSyntaxError) but the tag gives %r "
+                                "(templates rendered before it in this process: %r)" % (tag_src, leaf, res[:3], seq[:-1]))
+    return problems, seq
+
+
 def django_parser():
     from django.template import engines
     from django.template.base import Parser
@@ -151,7 +221,7 @@ def gen_leaf(rng, filters=True, key=False):
                 lf.pop("f")
         return lf
     if r < 0.3:
-        lf = {"k": "var", "t": rng.choice(["i", "s", "l", "d", "n", "t", "o.k", "o.z.0", "l.1", "e", "q"])}
+        lf = {"k": "var", "t": rng.choice(["i", "s", "l", "d", "n", "t", "o.k", "o.z.0", "l.1", "e", "q", "i", "s", "tp", "mp", "rg", "ud"])}
     elif r < 0.42:
         lf = {"k": "num", "t": str(rng.choice([0, 1, 42, -3]))}
     elif r < 0.8:
@@ -183,7 +253,7 @@ def gen_value(rng, depth):
         for _ in range(rng.randint(0, 4)):
             x = rng.random()
             if x < 0.15:
-                items.append({"k": "spread", "v": {"k": "leaf", "leaf": {"k": "var", "t": rng.choice(["l", "e", "s"])}}})
+                items.append({"k": "spread", "v": {"k": "leaf", "leaf": {"k": "var", "t": rng.choice(["l", "e", "s", "l", "tp", "rg", "dk", "mp", "fs"])}}})
             elif x < 0.25:
                 items.append({"k": "spread", "v": gen_list(rng, depth - 1)})
             else:
@@ -201,7 +271,7 @@ def gen_dict(rng, depth):
     for _ in range(rng.randint(0, 3)):
         x = rng.random()
         if x < 0.15:
-            ents.append({"k": "spread", "v": {"k": "leaf", "leaf": {"k": "var", "t": rng.choice(["d", "o"])}}})
+            ents.append({"k": "spread", "v": {"k": "leaf", "leaf": {"k": "var", "t": rng.choice(["d", "o", "d", "mp", "ud", "cm", "od"])}}})
         elif x < 0.25:
             ents.append({"k": "spread", "v": gen_dict(rng, depth - 1)})
         else:
@@ -215,7 +285,7 @@ def gen_arglist(rng, flags):
     for _ in range(rng.randint(0, 3)):
         x = rng.random()
         if x < 0.15:
-            args.append({"k": "aspread", "v": {"k": "leaf", "leaf": {"k": "var", "t": rng.choice(["l", "e"])}}})
+            args.append({"k": "aspread", "v": {"k": "leaf", "leaf": {"k": "var", "t": rng.choice(["l", "e", "l", "tp", "rg", "dk", "fs", "s"])}}})
         elif x < 0.22:
             args.append({"k": "aspread", "v": gen_list(rng, 1)})
         else:
@@ -227,7 +297,7 @@ def gen_arglist(rng, flags):
         for inner in rng.sample(inners, rng.randint(1, min(3, len(inners)))):
             kws.append({"k": "kw", "key": outer + ":" + inner, "v": gen_value(rng, 1)})
     if rng.random() < 0.2:
-        kws.append({"k": "aspread", "v": {"k": "leaf", "leaf": {"k": "var", "t": rng.choice(["d", "d", "D"])}}})
+        kws.append({"k": "aspread", "v": {"k": "leaf", "leaf": {"k": "var", "t": rng.choice(["d", "d", "D", "mp", "ud", "cm", "od"])}}})
     elif rng.random() < 0.1:
         kws.append({"k": "aspread", "v": {"k": "dict", "ents": [{"k": "pair", "key": {"k": "str", "c": "lit", "q": '"'}, "v": gen_value(rng, 1)}]}})
     rng.shuffle(kws)
@@ -290,9 +360,9 @@ class Denoter:
                     kwargs[key] = self.value(it["v"])
             elif it["k"] == "aspread":
                 val = self.value(it["v"])
-                if isinstance(val, dict):
+                if isinstance(val, collections.abc.Mapping):      # f(**val): any mapping, not only dict
                     kwargs.update(val)
-                else:
+                else:                                             # f(*val): any other iterable
                     args.extend(val)
             else:
                 flags.add(it["name"])
@@ -545,8 +615,10 @@ def value_term(v, oth):
         return "(VStr %s)" % cstr(str(v))
     if isinstance(v, (list, tuple)):
         return "(VList %s)" % clist([value_term(x, oth) for x in v])
-    if isinstance(v, dict):
+    if isinstance(v, collections.abc.Mapping):          # dict, MappingProxyType, UserDict, ChainMap, ...: canonical form = its items
         return "(VDict %s)" % clist(["(%s, %s)" % (value_term(k, oth), value_term(x, oth)) for k, x in v.items()])
+    if isinstance(v, (range, collections.abc.Set, collections.abc.KeysView, collections.abc.ValuesView)):   # non-list iterables
+        return "(VList %s)" % clist([value_term(x, oth) for x in v])
     return "(VOther %s)" % cN(oth.id(v))
 
 
@@ -649,6 +721,7 @@ def run(tier, seed):
     pr.install()
     terms, cases = [], []
     sterms, scases = [], []
+    rerender = []
 
     def spec_case(kind, body, slash, items, table, res):
         """S-model case: structure + layout table (as parse_tag sees it) + parse text + observed values"""
@@ -740,6 +813,8 @@ def run(tier, seed):
                              {"kind": kind, "body": body, "canonical": canon, "observed": repr(res[:3]), "canonical_observed": repr(seen_res[:3])})
                 if li == 0:
                     seen_res = res
+                if li == 1:
+                    rerender.append((kind, body, slash, res))
                 if li < 3 or li == n_lay - 1:
                     model_case(kind, body, slash, res)
                 spec_case(kind, body, slash, items, lay.table, res)
@@ -772,6 +847,32 @@ def run(tier, seed):
             if res[0] == "err" and res[1] not in ("TemplateSyntaxError", "TypeError", "ValueError", "SyntaxError", "VariableDoesNotExist", "KeyError", "AttributeError"):
                 chk.dist["mutation-unusual-exception-" + res[1]] += 1
             model_case("probe", body, True, res)
+        # ---- 4. history: the meaning of an argument must not depend on what was compiled / rendered before in this process ----
+        import itertools
+        libs = FilterLibs()
+        libs.install()
+        try:
+            n = 0
+            for leaf_tpl, ok_sets in HISTORY_LEAVES:
+                for si, shape in enumerate(HISTORY_SHAPES):
+                    orders = list(itertools.permutations(["A", "B", "none"])) if (thorough or si == 0) else [rng.choice(list(itertools.permutations(["A", "B", "none", "AB"], 3)))]
+                    for order in orders:
+                        n += 1
+                        problems, seq = history_trial(pr, n, leaf_tpl, ok_sets, shape, order)
+                        chk.count(("history", leaf_tpl, shape[0], order), True, kind="history-filter-libraries")
+                        if problems:
+                            chk.fail(T_HISTORY, problems[0], {"kind": "history", "sources": seq, "problems": problems[:4]})
+            # the same tag text in another template (other surroundings, an unrelated {% load %}), later in the process: identical result
+            for (kind, body, slash, first) in rerender:
+                head = "component 'c02x'" if kind == "component" else "c02probe"
+                src = "zz{% load c02lib_a %} {{ i }}{% " + head + body + " %}" + ("" if (slash or kind == "probe") else "{% endcomponent %}") + "yy"
+                res = pr.run(src, CTX)
+                chk.count(("rerender", kind, body), True, kind="history-same-text-other-template")
+                if res[0] != first[0] or (res[0] == "ok" and not (same(res[1], first[1]) and same(res[2], first[2]))):
+                    chk.fail(T_HISTORY, "the same tag text gives %r in a second template, %r in the first" % (res[:3], first[:3]),
+                             {"kind": "history", "sources": [sources(kind, body, slash), src]})
+        finally:
+            libs.uninstall()
     finally:
         pr.uninstall()
     import time
@@ -812,7 +913,7 @@ def run(tier, seed):
     chk.assumptions = [
         "leaf evaluation (variables, literals, filters, _() strings, nested template strings) is Django's FilterExpression / Template - trusted, not modelled",
         "receivers take var-positional and var-keyword parameters (signature validation belongs to C11)",
-        "context values are str / int / bool / None / list / dict with str keys",
+        "context values are str / int / bool / None / list / tuple / range / dict views / frozenset / dict and non-dict Mappings (MappingProxyType, UserDict, ChainMap)",
     ]
     return chk.finish(
         rule="argument-list STRUCTURES from the documented grammar (positional values, special-character and aggregate keys, list/dict literals nested to depth 3, "
@@ -842,6 +943,14 @@ def replay(path):
     pr = Probes()
     pr.install()
     try:
+        if case.get("kind") == "history":
+            libs = FilterLibs()
+            libs.install()
+            for src in case["sources"]:
+                print("source:", src)
+                print("observed:", pr.run(src, CTX)[:4])
+            libs.uninstall()
+            return 0
         kind = case.get("kind", "probe")
         body = case.get("body", "")
         src = sources(kind if kind in ("component", "probe") else "probe", body, True if "/" in body.split()[-1:] else case.get("slash", True))
